@@ -21,13 +21,14 @@
         evaluated inside Coq on every real route() result, and the connectivity clause by
         C03_check_connected_sound.
    * U  C03_copy_disconnect_inv: the first half of avoid_dead_links, for every machine and tree.
+   * U  C03_repair_step_tree_partial: one repair step whose A* detour runs over new ground only.
    * R  C03_repair_duplicate_child_orig_refuted: the repair step of the code as found (before c75fe85)
         attached a chip twice; witness replayed on the real code.
    The model (Model/Route.v) is compared with rig on every run: exact tree equality for ner_net and for the
    final tree of route(), with the random module scripted. *)
 From Coq Require Import ZArith List Bool.
 Require Import Rig.Model.Base Rig.Model.Route Rig.Spec.Route Rig.Proofs.Route Rig.Proofs.RouteMain
-        Rig.Proofs.RouteFull Rig.Proofs.RouteCopy.
+        Rig.Proofs.RouteFull Rig.Proofs.RouteCopy Rig.Proofs.RouteRepair.
 Import ListNotations.
 Open Scope Z_scope.
 
@@ -99,6 +100,31 @@ Theorem C03_copy_disconnect_inv :
       /\ length f = S (length br).
 Proof. exact copy_disconnect_inv. Qed.
 
+(* U-partial: one repair step (the body of the loop over broken_links).  Full statement: for every forest
+   without a repeated chip whose edges are working links, every orphaned root [child] and EVERY path A* can
+   return (working links from a node outside the orphaned tree, through chips that are either new or nodes
+   of the orphaned tree, to [child]), splice returns a forest with one tree fewer, no repeated chip, all
+   edges working links.  Proved: the case in which the detour runs over new ground only (no chip of the
+   path is in the forest); it holds for whatever parent search the code uses ([sev] is arbitrary).
+   Missing: the re-parenting case (the detour crosses the orphaned tree itself), where the code as found was
+   wrong (C03_repair_duplicate_child_orig_refuted) and the repaired code is certified per output by V. *)
+Theorem C03_repair_step_tree_partial :
+  forall (sev : chip -> chip -> list rtree -> list rtree) m child cc path last ld f ct f',
+    NoDup (forest_chips f) ->
+    (forall t p r c, In t f -> In (p, r, c) (tree_hops t) -> exists l, r = Some l /\ hop_ok m p l c) ->
+    take_root child f = Some (ct, f') -> root_chip ct = Some child ->
+    In last (forest_chips f') ->
+    NoDup (map snd path) ->
+    (forall q, In q (map snd path) -> ~ In q (forest_chips f) /\ ~ In q cc) ->
+    detour_ok m last ld path child ->
+    exists f2,
+      splice_gen sev child cc last ld path f = Ok f2
+      /\ NoDup (forest_chips f2)
+      /\ (forall t p r c, In t f2 -> In (p, r, c) (tree_hops t) -> exists l, r = Some l /\ hop_ok m p l c)
+      /\ (forall x, In x (forest_chips f2) <-> In x (forest_chips f) \/ In x (map snd path))
+      /\ S (length f2) = length f.
+Proof. exact repair_step_tree. Qed.
+
 (* R: the repair of the code as found (model avoid_dead_links_orig) on a connected 3 x 4 mesh with five
    further dead links: the tree of ner_net is repaired into a tree that lists chip (1, 0) twice; the
    repaired code returns a tree the validator accepts. *)
@@ -132,6 +158,12 @@ Example C03_route_partial_instance :
   /\ sink_reqs [1; 1] [(0, (0, 0)); (1, (1, 1))] [] [(1, (1, 3))]
      = [(1, (1, 1), [Some 7; Some 8]); (1, (1, 1), [Some 7; Some 8])].
 Proof. exact ex_route_no_repair. Qed.
+
+Example C03_repair_step_instance :
+  splice_gen sever_now (2, 0) [(2, 0)] (0, 0) 0 [(0, (1, 0))] [RNode (0, 0) []; RNode (2, 0) []]
+  = Ok [RNode (0, 0) [(Some 0, RNode (1, 0) [(Some 0, RNode (2, 0) [])])]]
+  /\ detour_ok (perfect 3 1) (0, 0) 0 [(0, (1, 0))] (2, 0).
+Proof. exact ex_repair_step. Qed.
 
 Example C03_mesh_instance : fault_free ex_mesh false.
 Proof. exact ex_mesh_fault_free. Qed.
